@@ -4,6 +4,7 @@ import KVerif.Drv.C04
 import KVerif.Drv.C13
 import KVerif.Drv.C05
 import KVerif.Drv.Kan
+import KVerif.Drv.C02
 open KVerif.Drv
 
 /-- kvdrv <prop>: one case line in, one `M <model> ## S <spec>` line out. -/
@@ -15,6 +16,7 @@ def dispatch (prop : String) : Option (String → String × String) :=
   | "C05" => some C05.run
   | "C05o" => some C05.runOracle
   | "KALL" => some (Kan.run "KAN")
+  | "C02" => some C02.run
   | "LALL" => some (Lay.run "LAY")
   | _ => none
 
